@@ -10,12 +10,14 @@
 (*   SetValue(t, p, k, v, n)           n = id given to the new context     *)
 (*   SetValues(t, p, m = [[k,v]..], n)                                     *)
 (*   Attach(t, c)   Detach(t, c, ok)   ScopeEnter(t, s, n)  ScopeExit(t,c) *)
+(*   Drop(t, c)                        the thread drops its handle to c    *)
 (* every event also carries the caller's observations after the call:      *)
-(*   cur, curn  RuntimeContext::GetCurrent(): id of the (curn) known        *)
-(*              context(s) it compares equal to                            *)
+(*   cur, curn  RuntimeContext::GetCurrent(): id of the (curn) LIVE handle(s) *)
+(*              it compares equal to (0, 0 when its handle was dropped)    *)
+(*   cv         RuntimeContext::GetValue(k) for every key k                *)
 (*   span       Tracer::GetCurrentSpan()                                   *)
 (*   d          the re-read GetValue/HasKey table of every context the     *)
-(*              thread knows, delta-encoded: [ctx, key, value] for every   *)
+(*              thread holds a handle to, delta-encoded: [ctx, key, value] for every   *)
 (*              answer that differs from the one logged before.  Contexts  *)
 (*              are immutable, so d must be exactly the row of the context *)
 (*              created by this very step.                                 *)
@@ -30,7 +32,8 @@ tvars == <<vars, l, nk, nexec, agg>>
 
 AllFlags == {"shadow", "sibling", "emptymap", "shadowmap", "deep", "reattach", "foreign", "foreign_xthread",
              "empty_tok", "ooo", "dup", "dup_ooo", "ooo_deep", "ooo_deep2", "nested_scope", "scope_ooo",
-             "scope_restores_span"}
+             "scope_restores_span", "scope_exit_destroys", "drop_child_first", "drop_leaf_of_chain", "drop_parent_first",
+             "drop_middle", "drop_attached", "unwind_to_small", "regrow", "ooo_after_regrow"}
 Merge(a, fl) == [f \in AllFlags |-> a[f] + IF f \in fl THEN 1 ELSE 0]
 
 Ev == TraceLog[l]
@@ -43,12 +46,15 @@ TCfg == /\ Is("Cfg")
         /\ Ev.nt + 1 <= NT /\ Ev.nk <= NK
         /\ nk' = Ev.nk /\ nexec' = nexec + 1 /\ agg' = Merge(agg, flags)
         /\ val' = <<>> /\ origin' = <<>> /\ stack' = [t \in Threads |-> <<>>]
-        /\ toks' = {} /\ scopes' = {} /\ last' = NoOp /\ flags' = {} /\ hist' = <<>>
+        /\ toks' = {} /\ scopes' = {} /\ live' = {} /\ phase' = [t \in Threads |-> 0]
+        /\ last' = NoOp /\ flags' = {} /\ hist' = <<>>
 
 \* observations common to every event
 ObsOK(created) ==
   /\ Ev.t \in Threads
-  /\ Ev.cur = Cur(stack', Ev.t) /\ Ev.curn = 1
+  /\ LET c == Cur(stack', Ev.t) IN
+     /\ IF c = 0 \/ c \in live' THEN Ev.cur = c /\ Ev.curn = 1 ELSE Ev.cur = 0 /\ Ev.curn = 0
+     /\ Len(Ev.cv) = nk /\ \A k \in 1..nk : Ev.cv[k] = Value(val', c, k)
   /\ Ev.span = CurSpan(val', stack', Ev.t)
   /\ IF created = 0 THEN Ev.d = <<>>
      ELSE /\ Len(Ev.d) = nk
@@ -95,7 +101,12 @@ TScopeExit == /\ Is("ScopeExit")
               /\ ObsOK(0)
               /\ UNCHANGED <<nk, nexec, agg>>
 
-TNext == TCfg \/ TSetValue \/ TSetValues \/ TAttach \/ TDetach \/ TScopeEnter \/ TScopeExit
+TDrop == /\ Is("Drop")
+         /\ DropContext(Ev.t, Ev.c)
+         /\ ObsOK(0)
+         /\ UNCHANGED <<nk, nexec, agg>>
+
+TNext == TDrop \/ TCfg \/ TSetValue \/ TSetValues \/ TAttach \/ TDetach \/ TScopeEnter \/ TScopeExit
 TSpec == TInit /\ [][TNext]_tvars
 
 Progress == TLCSet(1, IF l > TLCGet(1) THEN l ELSE TLCGet(1))
